@@ -41,6 +41,7 @@ struct Dom
 {
     using Model = Mem;
     static void init(Model& m, World& w) { m.dump_hash = hash128(w.dump()); }
+    static void visit(World&, Model&, const std::string&, Agg&) {}
     static std::string key_extra(const Model&) { return ""; }
     static std::vector<std::string> seeds(eng::engine_schema)
     {
